@@ -70,10 +70,11 @@ def settings_pushed_at_construction(chk, pid):
     S = chk.summary(BACKTEST, "Backtest", "__init__", host="Backtest")
     host = "Backtest.__init__"
     chk.site()
-    calls = [e for e in S.events if e.kind == "call" and e.recv is not None and ((e.recv[0] == "fld" and e.recv[2] == "strategy") or (e.recv[0] == "call" and e.recv[1] == "deepcopy"))]
+    calls = [e for e in S.events if e.kind == "call" and e.recv is not None and ((e.recv[0] == "fld" and e.recv[2] == "strategy") or (e.recv[0] == "call" and e.recv[1] == "deepcopy") or e.recv == ("param", "strategy"))]
     ip = [e for e in calls if e.name == "use_integer_positions"]
     sw_ = S.writes("strategy", SELF)
     ok = bool(ip) and ip[0].args and canon(ip[0].args[0]) == canon(("param", "integer_positions")) and bool(sw_) and guard_subset(ip[0].guard, sw_[0].guard)
+    ok = ok and (ip[0].recv != ("param", "strategy") or ip[0].seq < sw_[0].seq)
     chk.ob("C19.R2", ok, BACKTEST, host, "integer-positions-pushed-at-construction",
            "the position mode is pushed down the tree when the backtest is built, i.e. before setup takes the shadow copies of sub-strategies", where=S.fn.where,
            expected="self.strategy.use_integer_positions(integer_positions) in __init__", found="%d calls" % len(ip))
